@@ -105,8 +105,11 @@ def main():
     # a regex whose alphabet keeps two disjoint inverted sets (which one became the Else transition used to depend on set order)
     h7 = hp("hist-two-inverted-sets", 'parser { b/ff([6f-92]+[^00-72][^2e-fe]{2,2})+/; }\n', ["-feof-support"])
     h8 = hp("hist-two-inverted-sets-text", 'out str[8] s;\nparser { s += /[^a-m]+[^n-z]/; /[^a-m][^n-z]{2}/; "."; }\n')
-    groups += [[h1, h2, h3, h4], [h4, h5, h1, h3], [h6, h1, h6, h2], [h7, h8, h5, h7]]
-    progs = progs + [h1, h2, h3, h4, h5, h6, h7, h8]
+    # verdicts that hang on a set of frontier states: an if whose branches start with inverted sets after an open-ended match
+    h9 = hp("hist-if-after-lookahead", 'out int c = 0;\nparser { /x(ay)?/; if c == 0 { /[^a]p/; } else { /[^b]q/; } }\n')
+    h10 = hp("hist-if-after-lookahead-2", 'out int c = 0;\nparser { /x(ay)?(bz)?/; if c == 0 { /[^a]p/; } elif c == 1 { /[^b]q/; } else { /[^ab]r/; } }\n')
+    groups += [[h1, h2, h3, h4], [h4, h5, h1, h3], [h6, h1, h6, h2], [h7, h8, h5, h7], [h9, h10, h9, h5]]
+    progs = progs + [h1, h2, h3, h4, h5, h6, h7, h8, h9, h10]
     with mp.Pool(min(14, os.cpu_count() or 4)) as pool:
         results = pool.map(work, [(g, ck.seed, ck.tier) for g in groups], chunksize=1)
     st = {"programs": len(progs), "histories_compared": 0}
